@@ -405,6 +405,7 @@ inline int worker_main(Engine &eng, int argc, char **argv) {
     auto t0 = std::chrono::steady_clock::now();
     std::string inflight = dir + "/inflight-" + id + ".json";
     unsigned run_timeout = a.count("timeout") ? (unsigned) atoi(a["timeout"].c_str()) : 120;
+    bool isolate = a.count("isolate") > 0;
     signal(SIGALRM, on_alarm);
     Json prev_case;     // leak attribution can lag one run behind: keep the previous case as a fallback
     for (long i = from; i < to; i += stride) {
@@ -416,6 +417,20 @@ inline int worker_main(Engine &eng, int argc, char **argv) {
         cs["sched_seed"] = (long long) (mix64(seed ^ 0x5bd1e995, (uint64_t) i) >> 1);
         Json inf = Json::object(); inf["i"] = (long long) i; inf["case"] = cs; inf["seed"] = (long long) seed;
         inf.write_file(inflight);
+        if (isolate) {
+            // process isolation: the run executes in a forked child, so function-local statics of the library
+            // (e.g. the control object kept by set_global_tbb_concurrency) start fresh for every history
+            fflush(stdout); fflush(stderr);
+            pid_t pid = fork();
+            if (pid < 0) { fprintf(stderr, "fork failed\n"); return 3; }
+            if (pid > 0) {
+                int status = 0; waitpid(pid, &status, 0);
+                if (WIFEXITED(status) && WEXITSTATUS(status) == 0) continue;
+                // the child died: die the same way, the driver classifies from stderr and the in-flight case
+                if (WIFSIGNALED(status)) { signal(WTERMSIG(status), SIG_DFL); raise(WTERMSIG(status)); }
+                _exit(WIFEXITED(status) ? WEXITSTATUS(status) : 70);
+            }
+        }
         alarm(run_timeout);
         Outcome o = execute(eng, cs);
         alarm(0);
@@ -436,9 +451,10 @@ inline int worker_main(Engine &eng, int argc, char **argv) {
                 rp.write_file(pp); j["viol_file_prev"] = pp;
             }
         }
-        if (samples > 0 && o.r.nontrivial) { j["sample"] = cs; samples--; }
+        if ((samples > 0 || isolate) && o.r.nontrivial && (!isolate || i < from + 3 * stride)) { j["sample"] = cs; samples--; }
         if (leakcheck_enabled()) prev_case = cs;
         printf("R %s\n", j.dump().c_str());
+        if (isolate) { fflush(stdout); fflush(stderr); _exit(0); }
     }
     unlink(inflight.c_str());
     printf("D {\"done\":true}\n");
